@@ -8,7 +8,7 @@ POLL = "<operators::to_vec::ToVec as std::future::Future>::poll"
 
 def _cell_hits(P, b, prov, field):
     for t in prov:
-        for g in P.global_cell(b, t):
+        for g in P.global_cell(b, t, through_helpers="add"):
             if field in g[3]:
                 return True
     return False
